@@ -99,7 +99,16 @@ fn run(eng: &Engine, a: &Args) {
     for (b, t) in reg.blocks.iter_mut().zip([1u32, 4_000_000_000, 1, 4_000_000_000]) {
         b.time = t;
     }
-    eng.enumerate("fixed-defect-regressions", vec![Case { chain: reg, start_sel: None, end_sel: None }], check);
+    let mut fixed = vec![Case { chain: reg, start_sel: None, end_sel: None }];
+    // the biggest transaction carries a script whose length sits on a CompactSize boundary
+    for (k, len) in [252usize, 253, 254, 65534, 65535, 65536].iter().enumerate() {
+        let mut scripts: Vec<Vec<u8>> = (0..5).map(|i| vec![0x52 + i as u8]).collect();
+        scripts[2] = vec![0x6a; *len];
+        scripts[2][0] = 0x51;
+        let coin = vpmodel::chain::ALL_COINS[k % 8];
+        fixed.push(Case { chain: vpmodel::spec::chain_from_scripts(coin, &scripts, &[7_000, 9_000], 1, 2, 0, 1_500_000_000), start_sel: None, end_sel: None });
+    }
+    eng.enumerate("fixed-defect-regressions", fixed, check);
     eng.explore("stats-vs-recomputation", scaled(n, a), move || strategy(tier), check);
 }
 
